@@ -87,9 +87,14 @@ pub fn one(text: &str) -> i32 {
 }
 
 pub fn run() -> i32 {
+    let deep = std::env::var("VERIF_BOUNDED_DEEP").is_ok();
     let mut rep = Report::new(
         "lexical",
-        "every string of length <= 2 over 46 characters (all Unicode white space, the lexers' punctuation, multi-byte letters) in 10 contexts; compile + render every diagnostic; only a panic counts",
+        if deep {
+            "DEEP: every string of length <= 2 over 46 characters + length 3 over 16 of them, in 12 contexts (compile + render); token soup of <= 3 tokens over 50 tokens in 6 contexts; 20 cycle programs in child processes; only a panic/abort/hang counts"
+        } else {
+            "every string of length <= 2 over 46 characters (all Unicode white space, the lexers' punctuation, multi-byte letters) in 12 contexts (compile + render); token soup of <= 2 tokens over 50 tokens in 6 contexts; 20 cycle programs in child processes; only a panic/abort/hang counts"
+        },
     );
     let mut fillers: Vec<String> = vec![String::new()];
     for a in ALPHA {
@@ -99,6 +104,10 @@ pub fn run() -> i32 {
         for b in ALPHA {
             fillers.push(format!("{a}{b}"));
         }
+    }
+    if deep {
+        const SMALL: &[char] = &[' ', '\t', '\n', '\u{a0}', '\u{3000}', '#', '/', '*', '\\', '"', '{', '}', '@', ':', 'a', 'é'];
+        for a in SMALL { for b in SMALL { for c in SMALL { fillers.push(format!("{a}{b}{c}")); } } }
     }
     for (name, pre, post) in CONTEXTS {
         for f in &fillers {
@@ -148,7 +157,6 @@ pub fn run() -> i32 {
             soups.push(format!("{a} {b}"));
         }
     }
-    let deep = std::env::var("VERIF_BOUNDED_DEEP").is_ok();
     if deep {
         for a in TOKENS { for b in TOKENS { for c in TOKENS { soups.push(format!("{a} {b} {c}")); } } }
     }
